@@ -1,9 +1,9 @@
 import PyaModel.Core.AnnotRoutes
 import PyaModel.Core.Sexp
 /-! Line protocol driver for C13.
-in : `ann <0|1> <AnnExpr>`   (allow_unpack flag, s-expression of the annotation)
-     `sig <DefArgs>`
-out: `ast=<res> rt=<res> vis=<res> visq=<res> tn=<AnnExpr> S=<0|1> D=<classes|-> R=<classes|->`
+in : `ann <0|1> <env> <AnnExpr>`   (allow_unpack flag, name environment, s-expression of the annotation)
+     `sig <env> <DefArgs>`          env = `(env (early (n tgt)…) (late (n tgt)…) (builtins (n tgt)…))`
+out: `ast=<res> strg=<res> rt=<res> vis=<res> visq=<res> tn=<AnnExpr> S=<0|1> D=<classes|-> R=<classes|->`
      `def=<sig> insp=<sig> isig=<inspect view> S=<0|1> D=… R=…`
      res = `EXC` | `<Ty>;<errs>;<unp>`
 -/
@@ -43,6 +43,7 @@ def toAnn : Sexp → Option AnnExpr
   | .node (.atom "union" :: xs) => (toAnnL xs).map .union
   | .node [.atom "bor", a, b] => do some (.bor (← toAnn a) (← toAnn b))
   | .node [.atom "str", e] => (toAnn e).map .str
+  | .node [.atom "name", .atom n] => n.toNat?.map .name
   | _ => none
 def toAnnL : List Sexp → Option (List AnnExpr)
   | [] => some []
@@ -73,6 +74,7 @@ def showAnn : AnnExpr → String
   | .union xs => "(union" ++ showAnnL xs ++ ")"
   | .bor a b => "(bor " ++ showAnn a ++ " " ++ showAnn b ++ ")"
   | .str e => "(str " ++ showAnn e ++ ")"
+  | .name n => s!"(name {n})"
 def showAnnL : List AnnExpr → String
   | [] => ""
   | x :: xs => " " ++ showAnn x ++ showAnnL xs
@@ -86,8 +88,28 @@ def annClasses (e : AnnExpr) : String :=
   let cs := (if D13_starUnpack e then ["starUnpack"] else [])
   if cs.isEmpty then "-" else ",".intercalate cs
 
-def annRClasses (e : AnnExpr) : String :=
-  let cs := (if R13_typingDedup e || R13_typingDedup (swapOpt e) then ["typingDedup"] else [])
+def toTarget : Sexp → Option NameTarget
+  | .atom "anyT" => some .anyT
+  | .node [.atom "cls", .atom c] => c.toNat?.map .cls
+  | .node [.atom "nt", .atom n, .atom c] => do some (.newtype (← n.toNat?) (← c.toNat?))
+  | .node [.atom "bare", .atom c] => c.toNat?.map .bare
+  | .node [.atom "opq", .atom k] => k.toNat?.map .opaque
+  | _ => none
+
+def toBindings (xs : List Sexp) : Option Bindings :=
+  xs.mapM fun
+    | .node [.atom n, t] => do some ((← n.toNat?), (← toTarget t))
+    | _ => none
+
+def toEnv : Sexp → Option NameEnv
+  | .node [.atom "env", .node (.atom "early" :: e), .node (.atom "late" :: l), .node (.atom "builtins" :: b)] => do
+    some ⟨← toBindings e, ← toBindings l, ← toBindings b⟩
+  | _ => none
+
+def annRClasses (env : NameEnv) (e : AnnExpr) : String :=
+  let r := resolveV (visLookup env) e
+  let cs := (if R13_typingDedup (visLookup env) r || R13_typingDedup (visLookup env) (swapOpt r) ||
+    R13_typingDedup (visLookup env) (swapOpt e) then ["typingDedup"] else [])
   if cs.isEmpty then "-" else ",".intercalate cs
 
 /-! def headers -/
@@ -153,32 +175,35 @@ def showISig (s : ISig) : String :=
     s!"{p.name}:{showKind p.kind}:{showDfl p.dflt}:{match p.ann with | some a => showAnn a | none => "-"}") ++
   s!" -> {match s.returns with | some a => showAnn a | none => "-"}"
 
-def sigClasses (d : DefArgs) : String :=
+def sigClasses (env : NameEnv) (d : DefArgs) : String :=
   let anns := d.allArgs.filterMap (·.ann) ++ d.returns.toList
-  let cs := (if anns.any D13_starUnpack then ["starUnpack"] else [])
+  let cs := (if anns.any D13_starUnpack then ["starUnpack"] else []) ++
+    (if D13_reboundName env d then ["reboundName"] else [])
   if cs.isEmpty then "-" else ",".intercalate cs
 
-def sigRClasses (d : DefArgs) : String :=
+def sigRClasses (env : NameEnv) (d : DefArgs) : String :=
   let anns := d.allArgs.filterMap (·.ann) ++ d.returns.toList
   let cs := (if R13_unannotated d then ["unannotated"] else []) ++
-    (if anns.any (fun e => R13_typingDedup e || R13_typingDedup (swapOpt e)) then ["typingDedup"] else [])
+    (if anns.any (fun e => annRClasses env e != "-") then ["typingDedup"] else [])
   if cs.isEmpty then "-" else ",".intercalate cs
 
 def handle (line : String) : String :=
   match readSexps line with
-  | some [.atom "ann", .atom au, e] =>
-    match toAnn e with
-    | some e =>
+  | some [.atom "ann", .atom au, env, e] =>
+    match toEnv env, toAnn e with
+    | some env, some e =>
       let au := au == "1"
-      s!"ast={showRes (astEval au e)} rt={showRes (rtEval au (tnorm e))} vis={showRes (visEval au e)} " ++
-      s!"visq={showRes (visEval au (.str e))} tn={showAnn (tnorm e)} S={b2s (Supported e)} D={annClasses e} R={annRClasses e}"
-    | none => "bad-op"
-  | some [.atom "sig", d] =>
-    match toDefArgs d with
-    | some d =>
-      s!"def={showSig (fromDef d)} insp={showSig (fromRuntime d)} isig={showISig (inspectOf d)} " ++
-      s!"S={b2s d.Supported} D={sigClasses d} R={sigRClasses d}"
-    | none => "bad-op"
+      let obj := tnorm (resolveV (pyLookup env) e)
+      s!"ast={showRes (astEval (defaultLookup env) au e)} strg={showRes (astEval (globalsLookup env) au e)} " ++
+      s!"rt={showRes (rtEval (defaultLookup env) au obj)} vis={showRes (visEval env au e)} " ++
+      s!"visq={showRes (visEval env au (.str e))} tn={showAnn obj} S={b2s (Supported e)} D={annClasses e} R={annRClasses env e}"
+    | _, _ => "bad-op"
+  | some [.atom "sig", env, d] =>
+    match toEnv env, toDefArgs d with
+    | some env, some d =>
+      s!"def={showSig (fromDef env d)} insp={showSig (fromRuntime env d)} isig={showISig (inspectOf env d)} " ++
+      s!"S={b2s d.Supported} D={sigClasses env d} R={sigRClasses env d}"
+    | _, _ => "bad-op"
   | _ => "bad-op"
 
 partial def loop (h : IO.FS.Stream) : IO Unit := do
